@@ -259,10 +259,19 @@ pub fn slice_cases(default_mode: &str, cases: &[J], out: &mut Out) {
                 out.calls += steps.len() as u64;
                 let mut ok = true;
                 let mut ended_by_latitude = false;
+                // C02 states the verdict of the message PARSER; for the skipper no statement fixes what it refuses (C04 / C05 say where a
+                // skipped message ends and what prefixes give).  A session of the skipper is therefore compared only as far as the
+                // reference skips: there the code must skip the same bytes; where the reference stops, the code may stop or go on.
+                let skipper = case["ev"]["api"] == "consume";
                 for (i, s) in steps.iter().enumerate() {
-                    if i >= exp.len() { ok = false; break; }
+                    if i >= exp.len() { if skipper { ended_by_latitude = true; } else { ok = false; } break; }
                     let e = &exp[i];
                     let r = &s["res"];
+                    if skipper && e["v"] != "skipped" {
+                        if r["v"] == "panic" { ok = false; }
+                        ended_by_latitude = true;
+                        break;
+                    }
                     let exact = s["pos"] == e["pos"] && r["v"] == e["v"] && r["consumed"] == e["consumed"] && r["n"] == e["n"];
                     let alt = s["pos"] == e["pos"] && r["v"] == e["alt"] && r["v"] == "rej" && i + 1 == steps.len();
                     if alt && !exact { ended_by_latitude = true; }
